@@ -19,7 +19,7 @@ import (
 // Target is the program under simulation (set by the harness file added to package main).
 type Target struct {
 	Main     func()
-	SetBuild func(version, commit, date string)
+	SetBuild func(version, commit, date, dirty string)
 }
 
 type InFile struct {
@@ -37,6 +37,9 @@ type World struct {
 	PreOut   *InFile           `json:"pre_out,omitempty"`
 	Flags    []string          `json:"flags,omitempty"`
 	Version  string            `json:"version,omitempty"`
+	Commit   string            `json:"commit,omitempty"`
+	Date     string            `json:"date,omitempty"`
+	Dirty    string            `json:"dirty,omitempty"` // "", "true", "false"
 	Env      map[string]string `json:"env,omitempty"`
 	NoGo     bool              `json:"no_go,omitempty"` // PATH without a go binary
 	CwdSub   string            `json:"cwd_sub,omitempty"`
@@ -97,7 +100,7 @@ type FileObs struct {
 }
 
 func (a FileObs) Same(b FileObs) bool {
-	return a.Exists == b.Exists && a.IsDir == b.IsDir && a.Mode == b.Mode && a.Sha == b.Sha && a.Size == b.Size
+	return a.Exists == b.Exists && a.IsDir == b.IsDir && a.Dev == b.Dev && a.Mode == b.Mode && a.Sha == b.Sha && a.Size == b.Size
 }
 
 type Result struct {
@@ -308,12 +311,12 @@ func Exec(t Target, w *World) *Result {
 	os.Args = args
 	setEnv(baseEnv(w, home, tmp))
 	if t.SetBuild != nil {
-		t.SetBuild(w.Version, "", "")
+		t.SetBuild(w.Version, w.Commit, w.Date, w.Dirty)
 	}
 	ctl := &simrt.Ctl{
 		MapSeed: w.MapSeed, ListSeed: w.ListSeed, Clock: time.Unix(w.Clock, 0).UTC(), RandSeed: w.RandSeed,
 		Pid: w.Pid, Host: w.Host, Faults: append([]simrt.Fault{}, w.Faults...),
-		AltSeed: w.AltSeed, AltAll: w.AltAll,
+		AltSeed: w.AltSeed, AltAll: w.AltAll, Root: top,
 	}
 	if len(w.AltSites) > 0 {
 		ctl.AltSites = map[string]bool{}
@@ -357,7 +360,19 @@ func Exec(t Target, w *World) *Result {
 	res.WorldUse = ctl.WorldUse
 	res.EnvReads = ctl.EnvReads
 	res.Out = observe(w.Out)
+	if isDev, replaced, content := ctl.VDevState(w.Out); isDev {
+		// virtual device: the real node is never touched; report what the program did to it
+		res.OutBefore = FileObs{Exists: true, Dev: true, Mode: 0666}
+		res.Out = FileObs{Exists: true, Dev: true, Mode: 0666}
+		if replaced {
+			h := sha256.Sum256(content)
+			res.Out = FileObs{Exists: true, Mode: 0644, Size: len(content), Sha: hex.EncodeToString(h[:]), Data: string(content)}
+		}
+	}
 	for _, p := range listAll(cwd) {
+		if strings.HasSuffix(p, "/") {
+			continue // directories created on the way are not judged
+		}
 		if !beforeSet[p] && filepath.Clean(p) != filepath.Clean(w.Out) {
 			res.Stray = append(res.Stray, p)
 		}
